@@ -189,7 +189,8 @@ fn excl_and_plan(seed: u64, idx: u64, rep: &mut Report) {
     let mut src: BTreeMap<String, (u64, i64)> = BTreeMap::new();
     let mut dst: BTreeMap<String, (u64, i64)> = BTreeMap::new();
     for p in &uni {
-        let s = (rng.below(3) * 100, 1_700_000_000 + rng.below(3) as i64);
+        // mtimes include the first seconds of the epoch: 0 is a time like any other, not "unknown"
+        let s = (rng.below(3) * 100, *rng.pick(&[1_700_000_000i64, 1_700_000_000, 0, 0, 1, 4_102_444_800]) + rng.below(3) as i64);
         match rng.below(7) {
             0 => {
                 src.insert(p.clone(), s);
@@ -207,11 +208,11 @@ fn excl_and_plan(seed: u64, idx: u64, rep: &mut Report) {
             }
             4 => {
                 src.insert(p.clone(), s);
-                dst.insert(p.clone(), (s.0, s.1 + 1));
+                dst.insert(p.clone(), (s.0, if rng.chance(1, 3) { 0 } else { s.1 + 1 }));
             }
             5 => {
                 src.insert(p.clone(), s);
-                dst.insert(p.clone(), (s.0 + 7, s.1 - 1));
+                dst.insert(p.clone(), (s.0 + 7, (s.1 - 1).max(0)));
             }
             _ => {}
         }
